@@ -262,7 +262,9 @@ PROPS = {
                  "attribute values, value resizing, attribute type changes, duplicated / deleted / spliced attributes) of "
                  "reference-built messages and RFC vectors, plus random bytes up to 64 KiB. (a) every input decoded under all "
                  "16 option combinations + context-less: no panic (hook), post-conditions size == 20+length <= input, same "
-                 "result for the first `size` bytes alone and with other trailing bytes; get_input_text on the same bytes. "
+                 "result for the first `size` bytes alone and with other trailing bytes; get_input_text on the same bytes; "
+                 "plus 'wide' reference-built messages of 255-2700 tiny attributes (ordinary, unknown types, repeated MI / "
+                 "SHA256 / FINGERPRINT with right and wrong values), a third of them mutated. "
                  "(b) clients of every mechanism x fingerprint x transport driven <= 6 operations, then hostile messages "
                  "re-addressed to an outstanding transaction and re-signed (FINGERPRINT / MAC recomputed when the state has a "
                  "key), hostile 401/438 challenges with server-chosen strings straddling fixed offsets; afterwards the client "
@@ -274,7 +276,7 @@ PROPS = {
         "min_counters": {"decode.ok": 20000, "decode.err": 100000, "client.hostile-deliveries": 20000,
                          "client.hostile-accepted": 1000, "client.usability-probes": 10000, "reassembler.streams": 5000,
                          "client.state.lt-after-401": 500, "client.state.lt-authenticated": 500, "client.state.lt-after-438": 500,
-                         "client.state.st-unlearned": 200, "client.state.st-learned": 200},
+                         "client.state.st-unlearned": 200, "client.state.st-learned": 200, "wide.messages": 100},
     },
     "C07": {
         "title": "Short-term credentials: only authenticated messages are delivered",
